@@ -3,6 +3,15 @@
 use Protocol::{Shadowsocks, VMess, Trojan};
 #[verifier::external_body]
 pub struct TcpListener { _l: u8 }
+/// tokio_util::udp::UdpFramed (TRUSTED): keeps the codec it is given
+#[verifier::external_body]
+#[verifier::accept_recursive_types(C)]
+pub struct UdpFramed<C> { _c: core::marker::PhantomData<C> }
+impl<C> UdpFramed<C> {
+    pub uninterp spec fn codec(&self) -> C;
+    #[verifier::external_body]
+    fn new(socket: UdpSocket, codec: C) -> (r: Self) ensures r.codec() == codec { unimplemented!() }
+}
 pub struct VmessClientCodec { _c: u8 }
 pub struct TrojanClientCodec { _c: u8 }
 /// client/vmess.rs tcp::new_codec, client/trojan.rs tcp::new_codec: under contract in u_vmess / u_trojan; here only their types matter
@@ -30,6 +39,29 @@ fn sscli__new_payload_codec<const N: usize>(addr: &Address, config: ClientContex
 {
         Ok(sscli__PayloadCodec::new(config.0, Mode::Client, Some(addr.clone())))
     }
+
+//@@ octo-squirrel-client/src/client/shadowsocks.rs:123-136  mod udp / fn new_plain_outbound  sha=ab722790d4dfa290
+fn ssucli__new_plain_outbound<'a, const N: usize>(
+        verif_arg1: &Address,
+        client: &Client<'a, N>,
+    ) -> (r: anyhow::Result<UdpFramed<DatagramPacketCodec<'a, N>>>)
+        ensures
+            //#C16 C03 C12
+            // the datagram codec of a new binding: this client's cipher, key and identity keys, the client side of the protocol, a fresh session (packet id 0, fresh replay window)
+            r matches Ok(f) ==> f.codec().codec.cipher.kind == client.kind && f.codec().codec.context.key@ == client.key@ && f.codec().codec.context.identity_keys@ == client.identity_keys@
+                && f.codec().codec.context.stream_type is Client && f.codec().codec.context.user_manager is None && f.codec().session.packet_id == 0 && fresh(f.codec().filter),
+    {
+        let outbound = UdpSocket::bind(SocketAddrV4::new(verif_ipv4_unspecified(), 0))?;
+        let outbound_framed = UdpFramed::new(
+            outbound,
+            DatagramPacketCodec::new(udp__SessionCodec::new(
+                udp__Context::new(Mode::Client, None, client.key, client.identity_keys),
+                udp__AEADCipherCodec::new(client.kind),
+            )),
+        );
+        Ok(outbound_framed)
+    }
+
 
 //@@ octo-squirrel-client/src/client.rs:42-72  fn transfer_tcp  sha=053e21b3dd8afc4c
 fn transfer_tcp(listener: TcpListener, current: ServerConfig<SslConfig>) {
